@@ -22,6 +22,10 @@ CLAIMED = {
   "who-may-write tables over struct fields (stores, map updates, deletes, sync.Map mutators); must-pass-through of journal appends before raw setters; entry/undo sibling agreement; contradiction rule on length-observable maps; loop-shape check of RevertToSnapshot",
   "Journal completeness decided structurally for every write site of every journaled field of storage/account (~60 (field, function) pairs), every raw-setter call site, every journal entry type and its undo, and the revert loop: a mutation outside the reviewed writer table, a raw mutation not preceded by its journal entry on some path, an undo that touches other state than its entry, or a changed revert loop is reported. Value equality of queries after a revert is not decided.",
   "Trusted: the journaled-field list and writer/pair tables in rules/c04.go (each row with its class); go/ssa. Recorded defect F5 (undo cannot shrink cachedStorage/dirtyStorage while empty() reads their length) is printed as KNOWN-FINDING."),
+ "C01": ("3/C01",
+  "cone purity over the VTA call graph of VMExecutor.Execute (forbidden-construct scan with a reviewed, mechanically re-checked instance table); natural-loop analysis of map ranges (early exits, appends, sort-after); value-flow of clock reads; who-may-read chain stores; dominance/guard rules for sort and snapshot/revert",
+  "Every function reachable from block execution (~1,090, cut at logging/mysql/notify) is scanned for replica-local nondeterminism sources; each of the 18 hits is in a reviewed table and still has the mechanical shape of its class; reads of the block/group stores from the cone are the six reviewed ones; canonical sort precedes execution; failed transactions are reverted to the snapshot taken immediately before. Exhaustive over the cone. That the deterministic code computes the right root, and the sub-chain reward call, are not decided.",
+  "Trusted: VTA over-approximates callees; logging/mysql/notify do not feed consensus state; the classification reasons in rules/c01.go. The fix: commit 9e782cd (ChangeAssets sorted iteration) repaired finding F1; the check re-verifies the sorted-after shape on every run."),
 }
 
 NOT_YET = {}
